@@ -610,3 +610,68 @@ Proof.
     unfold vsub, vadd, vmul in *. injection C as C1 C2 C3.
     apply pair3; apply (Rmult_eq_reg_l D); try assumption; field_simplify; try assumption; lra.
 Qed.
+
+(* facet numbering for any parallelepiped *)
+Theorem box_general_facets_full (v a1 a2 a3 : pt) :
+  det a1 a2 a3 <> 0 ->
+  exists es, box RS (pl v ++ pl a1 ++ pl a2 ++ pl a3) = Ok es /\ Forall entry_wf es /\
+             Forall2 same_facet es (para_facets v a1 a2 a3).
+Proof.
+  intros HD. rewrite box_entries. cbv zeta. eexists; split; [reflexivity|].
+  split; [destruct (cross_nz a1 a2 a3 HD) as (C1 & C2 & C3); wf_planes|].
+  set (D := det a1 a2 a3) in *.
+  assert (A1 : dot (cross a2 a3) a1 = D) by (unfold D, det; apply dot_comm).
+  assert (A2 : dot (cross a3 a1) a2 = D).
+  { unfold D. rewrite (det_cyc a1 a2 a3). unfold det. apply dot_comm. }
+  assert (A3 : dot (cross a1 a2) a3 = D).
+  { unfold D. rewrite (det_cyc a1 a2 a3), (det_cyc a2 a3 a1). unfold det. apply dot_comm. }
+  assert (Abs : 0 < Rabs D) by now apply Rabs_pos_lt.
+  assert (K1 : forall q, dot (cross a2 a3) q = det q a2 a3) by (intros; unfold det; apply dot_comm).
+  assert (K2 : forall q, dot (cross a3 a1) q = det a1 q a3).
+  { intros q. rewrite (det_cyc a1 q a3). unfold det. apply dot_comm. }
+  assert (K3 : forall q, dot (cross a1 a2) q = det a1 a2 q).
+  { intros q. rewrite (det_cyc a1 a2 q), (det_cyc a2 q a1). unfold det. apply dot_comm. }
+  unfold para_facets, para_coord.
+  repeat (apply Forall2_cons); try apply Forall2_nil;
+    apply same_facet_plane with (c := Rabs D); try exact Abs; intros p; cbv beta zeta;
+    rewrite ?dot_vadd_r, ?A1, ?A2, ?A3; fold D;
+    rewrite <- ?K1, <- ?K2, <- ?K3, !dot_vsub_r;
+    destruct (Rltb_case D 0) as [[L ->]|[L ->]]; cbn [Z.opp IZR IPR];
+    (rewrite Rabs_left by lra) || (rewrite Rabs_right by lra); field; lra.
+Qed.
+
+(* for a right box these are the facets of the MCNP manual *)
+Lemma para_facets_right (v a1 a2 a3 : pt) :
+  box_admissible a1 a2 a3 ->
+  Forall2 (fun f g : pt -> R => exists c, 0 < c /\ forall p, f p = c * g p)
+          (para_facets v a1 a2 a3) (box_facets v a1 a2 a3).
+Proof.
+  intros (H12 & H13 & H23 & HD).
+  assert (H21 : dot a2 a1 = 0) by now rewrite dot_comm.
+  assert (H31 : dot a3 a1 = 0) by now rewrite dot_comm.
+  assert (H32 : dot a3 a2 = 0) by now rewrite dot_comm.
+  assert (N1 : 0 < norm2 a1) by (apply norm2_pos; now apply (det_nonzero_l a1 a2 a3)).
+  assert (N2 : 0 < norm2 a2).
+  { apply norm2_pos. apply (det_nonzero_l a2 a3 a1). now rewrite <- det_cyc. }
+  assert (N3 : 0 < norm2 a3).
+  { apply norm2_pos. apply (det_nonzero_l a3 a1 a2). now rewrite <- 2 det_cyc. }
+  set (D := det a1 a2 a3) in *.
+  assert (C1 : forall q, det q a2 a3 / D = dot a1 q / norm2 a1).
+  { intros q. pose proof (cross_parallel a1 a2 a3 q H12 H13) as E. fold D in E.
+    unfold det at 1. rewrite (dot_comm q). field_simplify_eq; [|lra]. lra. }
+  assert (C2 : forall q, det a1 q a3 / D = dot a2 q / norm2 a2).
+  { intros q. pose proof (cross_parallel a2 a3 a1 q H23 H21) as E.
+    rewrite <- (det_cyc a1 a2 a3) in E. fold D in E.
+    rewrite (det_cyc a1 q a3). unfold det at 1. rewrite (dot_comm q). field_simplify_eq; [|lra]. lra. }
+  assert (C3 : forall q, det a1 a2 q / D = dot a3 q / norm2 a3).
+  { intros q. pose proof (cross_parallel a3 a1 a2 q H31 H32) as E.
+    rewrite (det_cyc a3 a1 a2) in E. fold D in E.
+    rewrite (det_cyc a1 a2 q), (det_cyc a2 q a1). unfold det at 1. rewrite (dot_comm q).
+    field_simplify_eq; [|lra]. lra. }
+  unfold para_facets, para_coord, box_facets, plane_end, plane_begin.
+  repeat (apply Forall2_cons); try apply Forall2_nil.
+  1-2: exists (1 / norm2 a1). 3-4: exists (1 / norm2 a2). 5-6: exists (1 / norm2 a3).
+  all: (split; [apply Rdiv_lt_0_compat; lra|]); intros p; cbv beta zeta;
+       rewrite ?C1, ?C2, ?C3, ?dot_vsub_l; rewrite ?(dot_comm (vsub p v));
+       fold (norm2 a1) (norm2 a2) (norm2 a3); rewrite ?dot_vsub_r, ?(dot_comm p), ?(dot_comm v); field; lra.
+Qed.
